@@ -320,10 +320,13 @@ impl SwiftField for Field57 {
                 let field = Field57D::parse(value)?;
                 Ok(Field57::D(field))
             }
-            _ => {
-                // No variant specified, fall back to default parse behavior
+            None | Some("") => {
+                // No option letter given: fall back to default parse behavior
                 Self::parse(value)
             }
+            Some(other) => Err(ParseError::InvalidFormat {
+                message: format!("Option {} is not allowed for this field", other),
+            }),
         }
     }
 
@@ -499,10 +502,13 @@ impl SwiftField for Field57DebtInstitution {
                 let field = Field57D::parse(value)?;
                 Ok(Field57DebtInstitution::D(field))
             }
-            _ => {
-                // No variant specified, fall back to default parse behavior
+            None | Some("") => {
+                // No option letter given: fall back to default parse behavior
                 Self::parse(value)
             }
+            Some(other) => Err(ParseError::InvalidFormat {
+                message: format!("Option {} is not allowed for this field", other),
+            }),
         }
     }
 
